@@ -101,6 +101,45 @@ impl D3 {
     }
 }
 
+/// state data as the harness sees it: a number that can be read and written, whatever the Rust type
+pub trait DV {
+    fn get(&self) -> u64;
+    fn make(v: u64) -> Self;
+}
+macro_rules! dv_newtype {
+    ($n:ident) => {
+        impl DV for $n {
+            fn get(&self) -> u64 {
+                self.0
+            }
+            fn make(v: u64) -> Self {
+                $n(v)
+            }
+        }
+    };
+}
+dv_newtype!(D0);
+dv_newtype!(D1);
+dv_newtype!(D2);
+dv_newtype!(D3);
+/// a borrowed data type that implements Default: the value is the length of the string
+impl DV for &'static str {
+    fn get(&self) -> u64 {
+        self.len() as u64
+    }
+    fn make(v: u64) -> Self {
+        Box::leak("x".repeat(v as usize).into_boxed_str())
+    }
+}
+pub fn bump<T: DV>(slot: &mut T, v: u64) {
+    *slot = T::make(slot.get() + v);
+}
+
+/// a method of the user's impl that the generated code has no business calling (the target of a legacy key)
+pub fn stray(name: &str) {
+    RT.with(|r| r.borrow_mut().trace.push(Rec { text: format!("stray.{}", name), done: true }));
+}
+
 pub fn opt_str(o: Option<u64>) -> String {
     match o {
         Some(v) => v.to_string(),
